@@ -52,7 +52,7 @@ def tseq(name, items, conv, doc=""):
 IDENTS = ["a", "x", "foo-bar", "list->vector", "a.b", "a1", "!", "$?:!", "<=", "x@y", "a+", "set!", "nilx", "tt", "nil", "t",
           "e", "E1", "b1", "d", "f", "inf", "+", "-", "...", "..", ".a", "+a", "-a", "+.a", "-.-", "->", "+@", "--", "+.+",
           "λ", "λ-1", "éa", "ж:", "中→", "á", "x€", "a٣", ":a", "a:", "&b", "*", "/", "<", "=", ">", "?", "^", "_", "~", "%a",
-          "A", "Z9", "q?x", "a.", "a..b", "\U0001d49c", "a\U0001f600"]
+          "A", "Z9", "q?x", "a.", "a..b", "nan", "NaN", "Infinity", "infinity", "INF", "e10", "\U0001d49c", "a\U0001f600"]
 # names that stay plain under every option set of C02 (no leading '?'/digit/colon, no trailing colon, not nil/t)
 PORTABLE = [i for i in IDENTS if not (i[0] in "?:" or i.endswith(":") or i in ("nil", "t") or "?" in i)]
 
@@ -60,7 +60,8 @@ PORTABLE = [i for i in IDENTS if not (i[0] in "?:" or i.endswith(":") or i in ("
 CHARS = sorted(set([0, 7, 8, 9, 10, 13, 27, 127, 0x80, 0xA0, 233, 955, 0x1F600, 0xFFFD, 0xD7FF, 0xE000, 0x10FFFF] + list(range(32, 127))))
 STR_ALPHABET = [0, 7, 9, 10, 27, 32, 34, 40, 92, 97, 120, 127, 233, 955, 0x1F600]
 
-BYTEVECS = [[], [0], [255], [0, 127, 128], [1, 2, 3, 200]]
+# incl. octets that need an escape in a unibyte string directly followed by ASCII octal digits
+BYTEVECS = [[], [0], [255], [0, 127, 128], [1, 2, 3, 200], [1, 53], [255, 49, 55, 48], [92, 48], [34, 55, 56]]
 
 # C08: every token class with its near misses
 TOKENS = [
